@@ -260,3 +260,45 @@ def norm_locals(node, fn_node) -> str:
                 mapping[n.id] = f"v{len(mapping) + 1}"
             n.id = mapping[n.id]
     return short(node2, 300)
+
+
+def expand_locals(fn_node, expr, depth=4):
+    """A copy of ``expr`` in which every local of ``fn_node`` that is assigned exactly ONCE (a plain `name = value` statement,
+    not a parameter, not a loop / with / comprehension target, not augmented) is replaced by that value, repeatedly.  A rule
+    that recognises `self.config.channel_nbins[channel]` then also recognises `nbins` after `nbins = self.config.channel_nbins[channel]`.
+    (Used for RECOGNITION of shapes only; the single assignment may sit on another path than the use.)"""
+    import copy
+    params = {p.lstrip("*") for p in params_of(fn_node)} if hasattr(fn_node, "args") else set()
+    stores = {}
+    other = set()
+    for n in walk(fn_node, into_defs=False):
+        if isinstance(n, ast.Assign) and len(n.targets) == 1 and isinstance(n.targets[0], ast.Name):
+            stores.setdefault(n.targets[0].id, []).append(n.value)
+        elif isinstance(n, ast.Name) and isinstance(n.ctx, ast.Store):
+            other.add(n.id)
+    single = {k: v[0] for k, v in stores.items() if len(v) == 1 and k not in params}
+    # a Store that is not one of the plain assignments (loop target, augmented, tuple unpacking ...) disqualifies the name
+    plain_targets = {id(n.targets[0]) for n in walk(fn_node, into_defs=False) if isinstance(n, ast.Assign) and len(n.targets) == 1 and isinstance(n.targets[0], ast.Name)}
+    for n in walk(fn_node, into_defs=False):
+        if isinstance(n, ast.Name) and isinstance(n.ctx, ast.Store) and id(n) not in plain_targets:
+            single.pop(n.id, None)
+        elif isinstance(n, ast.AugAssign) and isinstance(n.target, ast.Name):
+            single.pop(n.target.id, None)
+
+    class _Sub(ast.NodeTransformer):
+        def __init__(self):
+            self.changed = False
+
+        def visit_Name(self, node):
+            if isinstance(node.ctx, ast.Load) and node.id in single:
+                self.changed = True
+                return copy.deepcopy(single[node.id])
+            return node
+
+    out = copy.deepcopy(expr)
+    for _ in range(depth):
+        t = _Sub()
+        out = t.visit(out)
+        if not t.changed:
+            break
+    return out
